@@ -569,9 +569,36 @@ fn exec_inner(st: &mut St, cmd: &str) -> String {
                 _ => return "nobuild".to_string(),
             };
             let e = st.op.as_ref().expect("no op").clone();
+            // the products are formed from factors built afresh from their programs (a clone has no spare capacity and a
+            // compacted ring buffer, so fast paths of `*` / `*=` that depend on the layout would never run)
+            let fresh_f = || match ops::build(&prog) {
+                Built::Ok(o) => o,
+                _ => unreachable!(),
+            };
             let q = st.q.as_ref().expect("no qreg");
             let mut q1 = q.clone();
-            q1.apply(&(e.clone() * f.clone()));
+            q1.apply(&(fresh_op(st) * fresh_f()));
+            {
+                // the same product through `*=` on the value and on `&mut`
+                let mut a = fresh_op(st);
+                a *= fresh_f();
+                let mut b = fresh_op(st);
+                {
+                    let mut r = &mut b;
+                    r *= fresh_f();
+                }
+                let same = a.iter().count() == b.iter().count()
+                    && a.iter().zip(b.iter()).all(|(x, y)| format!("{:?}", x) == format!("{:?}", y));
+                let mut qa = q.clone();
+                qa.apply(&a);
+                if !same || cvec(qa.verif_psi()) != cvec(q1.verif_psi()) {
+                    // reported through the first product: the comparison below then fails
+                    q1 = qa;
+                    if !same {
+                        q1.apply(&b);
+                    }
+                }
+            }
             let mut q2 = q.clone();
             q2.apply(&e);
             q2.apply(&f);
@@ -580,7 +607,7 @@ fn exec_inner(st: &mut St, cmd: &str) -> String {
                 q3.apply(g);
             }
             let mut q4 = q.clone();
-            q4.apply(&(f.clone() * e.clone()));
+            q4.apply(&(fresh_f() * fresh_op(st)));
             let mut q5 = q.clone();
             q5.apply(&(op::id() * e.clone() * op::id() * f.clone() * op::id()));
             format!(
